@@ -155,6 +155,40 @@ def run(ctx):
                         key='SHAPE:%s:byte_offset' % B.path)
 
 
+    # ---------------- clause 5: map keys are merged by BorrowedTerm's order ------------------------------------
+    # decode_borrowed collects MAP_EXT entries into a BTreeMap keyed by BorrowedTerm; the owned decoder keys by OwnedTerm.
+    # If the two orders distinguish different things, one decoder merges two keys the other keeps apart.
+    ctx.rule('C13.5-key-order', 'the order that keys the zero-copy decoder\'s maps looks at exactly the struct fields the owned order looks at, '
+             'and none of its comparisons has the same operand (or different fields) on its two sides', floor=10)
+    from ..families import check_self_compare, fields_touched
+    CMP_O = '<erltf::term::OwnedTerm as core::cmp::Ord>::cmp'
+    CMP_B = "<erltf::borrowed::BorrowedTerm<'a> as core::cmp::Ord>::cmp"
+    reach = {}
+    for nm, root in (('owned', CMP_O), ('borrowed', CMP_B)):
+        if not ctx.anchor(root in ctx.F.bodies, root):
+            return
+        reach[nm] = sorted(q for q in P.reachable_from([root]) if ctx.F.bodies[q]['crate'] == 'erltf')
+    for q in reach['borrowed']:
+        before = len(ctx.records)
+        k = check_self_compare(ctx, P.B(q), 'C13.5-key-order')
+        if k and len(ctx.records) == before:
+            ctx.ok('C13.5-key-order', q, '%d comparison(s), operands mirror each other' % k)
+    for ty in sorted(t_ for t_ in ctx.F.adts if t_.startswith('erltf::types::') and len(ctx.F.adts[t_]['variants']) == 1):
+        fo, fb = set(), set()
+        for q in reach['owned']:
+            fo |= fields_touched(P.B(q), ty)
+        for q in reach['borrowed']:
+            fb |= fields_touched(P.B(q), ty)
+        if not fo and not fb:
+            continue
+        inst = 'fields:' + ty.rsplit('::', 1)[1]
+        if fo == fb:
+            ctx.ok('C13.5-key-order', inst, 'both orders read %s' % sorted(fo))
+        else:
+            ctx.bad('C13.5-key-order', inst, 'the owned order reads %s of %s, the zero-copy order reads %s: map keys differing only in %s are merged by one decoder and kept apart by the other'
+                    % (sorted(fo), ty.rsplit('::', 1)[1], sorted(fb), sorted(fo ^ fb)), key='TWIN:order-fields:%s' % ty)
+
+
 def _offset_shape(B, c):
     def is_total(x):
         if x[0] == 'arg' and (B.local_name(x[1]) or '') in ('original_len',):
